@@ -406,6 +406,33 @@ def big_configurator_spec(draw, min_top=0):
     return {"k": "Stingy", "id": draw(st.sampled_from(["conf", "conf", None])), "c": items + groups + rules}
 
 
+def wide_threshold_cases(ns=(63, 64, 65, 66, 100, 128, 129, 130, 257, 300), booleans_only=True):
+    """ENUMERATED: every threshold connective over n boolean leaves for n around 64 / 128 / 256, judged on assignments of small
+    weight at telling positions (first, second, last, the block boundaries 62..65 and 127..129, 255..257), on prefix
+    assignments just below / at / above the threshold, on all-ones and all-but-one"""
+    for n in ns:
+        leaves = [{"k": "leaf", "id": "x%03d" % i, "b": [0, 1]} for i in range(n)]
+        ids = [l["id"] for l in leaves]
+        nodes = [{"k": "Xor", "id": "one", "c": leaves}, {"k": "XNor", "id": None, "c": leaves}, {"k": "Any", "id": "any", "c": leaves},
+                 {"k": "All", "id": None, "c": leaves}, {"k": "AtMost", "v": 1, "id": "cap1", "c": leaves},
+                 {"k": "AtMost", "v": n // 2, "id": None, "c": leaves}, {"k": "AtLeast", "v": 2, "s": 1, "id": "two", "c": leaves},
+                 {"k": "AtLeast", "v": n - n // 8, "s": 1, "id": None, "c": leaves}]
+        for node in nodes:
+            k = {"Xor": 1, "XNor": 1, "Any": 1, "All": n, "AtMost": node.get("v", 1), "AtLeast": node.get("v", 1)}[node["k"]]
+            sets = [set(), {0}, {n - 1}, {1}, {0, 1}, {0, n - 1}, {0, 1, n - 1}, {n - 2, n - 1}, {62, 63, 64}, {63, 64}, {64}, {0, 64, 128},
+                    {127, 128}, {255, 256}, {0, 255, 256}, set(range(n)), set(range(n)) - {0}, set(range(n)) - {n - 1},
+                    set(range(max(0, k - 1))), set(range(k)), set(range(min(n, k + 1))), set(range(n - k, n)), set(range(n // 8, n)), set(range(n // 8 + 1, n))]
+            pts, seen = [], set()
+            for s_ in sets:
+                s_ = frozenset(i for i in s_ if 0 <= i < n)
+                if s_ not in seen:
+                    seen.add(s_)
+                    pts.append([1 if i in s_ else 0 for i in range(n)])
+            for wrap in (False, True):
+                spec = {"k": "Not", "c": [node]} if wrap else node
+                yield {"model": spec, "points": pts}
+
+
 def rulebase_case(r, kinds=("Any",), falsify=(0, 1, 2)):
     """deterministic LARGE rule base: All over r rules R_j over the disjoint leaves (x_j, y_j); points: all leaves 1 with the
     leaves of k rules set to 0, for each k in ``falsify`` (rules taken from both ends and the middle)"""
